@@ -15,6 +15,9 @@ use std::time::{Duration, Instant};
 pub enum ObsMode {
     /// serve these bytes in one write, then close (what observer.rs does)
     Valid(Vec<u8>),
+    /// like Valid, but only after a pause (milliseconds): the exporter waits on the observation
+    /// socket meanwhile
+    DelayedValid(Vec<u8>, u64),
     /// serve only the first half
     Truncated(Vec<u8>),
     Invalid,
@@ -70,6 +73,10 @@ impl ObsServer {
                         let mode = m2.lock().unwrap().clone();
                         match mode {
                             ObsMode::Valid(b) => {
+                                let _ = s.write_all(&b);
+                            }
+                            ObsMode::DelayedValid(b, ms) => {
+                                std::thread::sleep(Duration::from_millis(ms));
                                 let _ = s.write_all(&b);
                             }
                             ObsMode::Truncated(b) => {
